@@ -14,7 +14,8 @@ func checkC11(c *Ctx) {
 	c.Decided = "the key under which a verdict is remembered or looked up incorporates the message (for batches: every per-signer message and its signer id, through a hash whose result reaches the key), the signature bytes and the claimed signer set; " +
 		"a verdict is remembered only after the delegated operation succeeded, a hit returns success and a miss returns the delegate's verdict unchanged; Combine neither reads nor writes the cache; " +
 		"the cache tables are accessed only under the mutex; eviction and insertion keep the map and the recency list in step."
-	c.NotDec = "collision resistance of SHA-256 and unambiguity of the concatenated key encoding; LRU order as such (irrelevant to verdicts given the clauses above)."
+	c.Decided += " The key is uniquely decodable in its two variable-length parts: the number of claimed signers precedes the id list and the sizes of the individual signatures precede the signature bytes; Multi enumerates ids, sizes and bytes in the same (slice) order."
+	c.NotDec = "collision resistance of SHA-256; injectivity of the key encoding beyond the two framing clauses that are checked (signer count before the id list, sizes of the individual signatures before the bytes); LRU order as such (irrelevant to verdicts given the clauses above)."
 	c.Assume = append(c.Assume, "SHA-256 is collision resistant; QuorumSignature.ToBytes and the ordered participant ids determine what the delegated verifier checks")
 	c.Expect("C11.1", 15)
 	c.Expect("C11.6", 5)
